@@ -22,6 +22,7 @@ type Obligation struct {
 	IsCover bool // sat is the pass
 	Watch   []WatchTerm
 	Extra   []Term // additional assumptions (replay: small-scope bounds)
+	Spec    *Expr  // ensures: the clause itself (replay evaluates it on the real outputs)
 	relaxAxioms bool // cover checks: retry without the quantified background axioms
 }
 
